@@ -3,7 +3,7 @@ The concrete side (used by native replay) is /verif/specs/prims.py; the two are 
 import z3
 
 from . import theory as T
-from . import types as TY
+from . import tys as TY
 from .sv import SV, NONE, OutOfSubset, StaleContract, mk_int, mk_bool, mk_real, mk_str, mk_bytes
 from .interp import as_int_term, as_real_term, const_int
 
